@@ -120,7 +120,7 @@ def text_feature(text):
 
 def random_frames(rng, n, tiny):
     """typed frames: [{types, names, rows: [{idx, cells}]}]; `tiny`: also every 0/1-row frame of the simplest types"""
-    types_menu = [[1], [3], [2], [1, 3], [2, 3], [3, 1], [1, 2, 3], [3, 2, 1]]
+    types_menu = [[1], [3], [2], [1, 3], [2, 3], [3, 1], [3, 3], [1, 2, 3], [3, 2, 1]]
 
     def cell(t, allow_na=True):
         if t == 1:
